@@ -14,18 +14,22 @@ LEVEL_TEXT = ("TLC explores OptParse.tla - the ideal reading of a command line a
               "behaviour TLC generates (expected targets, argv, bad count, flags per pass) is then executed on spifopt_parse in an "
               "ASan build of the current tree (fresh exact-size heap argv, guarded targets, CPU watchdog) and compared.")
 LEVEL_NOTE = ("Bounded scope: all argv of <= 3 words over 15 tokens and <= 2 words over the full 35-token alphabet (quick); <= 4 words "
-              "over 12 tokens and <= 3 words over all 35 (thorough); plus two family scopes: all ten boolean words (8 + 2 case variants) bare and =attached x long boolean, and long names that are prefixes of each other / of the typed name (<= 2-3 words); 2 option tables x 4 settings; beyond the bound only seeded "
-              "samples of 4-8 words (TLC computes their expectation too). Points DESIGN.md 8a marks E are accepted either way "
-              "(boolean word after a short boolean, lone '-' / bare '--', whether unknown-option words stay in argv, exact count "
-              "for a missing value); spellings marked X end the comparison and are run for termination and memory safety only. "
-              "Heap balance is not judged when a string/list option is given twice (the overwritten value is the program's) nor "
-              "on X lines. Case-insensitive matching only through a few mixed-case tokens; spifopt_usage output and the bad-option limit (which exits) are not "
-              "covered. Trusted: TLC, harness/opt_replay.c, the comparison in checks/c08.py, ASan.")
+              "over 12 tokens, <= 3 words over 28 and <= 2 over all 35 (thorough); two family scopes (all boolean words x {=WORD, next "
+              "word}; long names that are prefixes of each other / of the typed name); 2 option tables x 4 settings; beyond the bound "
+              "seeded samples of 4-8 words and a size sweep (n-1, n, n+1 around powers of two for words in a list, letters in a "
+              "bundle, words on the line, characters in a value) - TLC computes the expectation of those too. Every behaviour is "
+              "run fresh and after 4 adversarial preludes (stale errno, an earlier refused parse); results must be identical. "
+              "Points DESIGN.md 8a marks E are accepted either way (boolean word after a short boolean, lone '-' / bare '--', "
+              "whether unknown-option words stay in argv, exact count for a missing value); spellings marked X end the comparison "
+              "and are run for termination, memory safety and purity only. The bad-option count is compared as the 8-bit quantity "
+              "the API exposes (saturating at 255). Heap balance is not judged when a string/list option is given twice nor on X "
+              "lines. Case-insensitive matching only through a few mixed-case tokens; spifopt_usage output and the bad-option limit "
+              "(which exits) are not covered. Trusted: TLC, harness/opt_replay.c, the comparison in checks/c08.py, ASan.")
 TECHNIQUE = "TLA+ spec + TLC exhaustive enumeration of behaviours replayed on the implementation"
 DESIGN_REF = "DESIGN.md section 6 C08, 8a Options"
 
 CFGS = {"quick": ["OptParse_quick.cfg", "OptParse_quick2.cfg", "OptParse_bool.cfg", "OptParse_prefix.cfg"],
-        "thorough": ["OptParse_thorough.cfg", "OptParse_thorough2.cfg", "OptParse_bool.cfg", "OptParse_prefix3.cfg"]}
+        "thorough": ["OptParse_thorough.cfg", "OptParse_thorough2.cfg", "OptParse_quick2.cfg", "OptParse_bool.cfg", "OptParse_prefix3.cfg"]}
 SETBITS = {"PRE": 1, "REM": 2}
 
 
@@ -291,7 +295,7 @@ def long_vectors(ctx, exe, state):
     import random, shutil
     from vlib.tlc import SPEC
     rnd = random.Random(ctx.seed)
-    n, lo, hi = (400, 4, 6) if ctx.tier == "quick" else (6000, 5, 8)
+    n, lo, hi = (400, 4, 6) if ctx.tier == "quick" else (3000, 5, 8)
     ntok = state["hdr"]["nfull"]
     plain = [k + 1 for k, w in enumerate(state["hdr"]["toktext"][:ntok]) if w and w[0] != 45]
     vecs = set()
@@ -337,20 +341,24 @@ def long_vectors(ctx, exe, state):
         return len(toktext)
     base = {"".join(chr(c) for c in w): k + 1 for k, w in enumerate(toktext[:nbase])}
     quick = ctx.tier == "quick"
-    pw = [8, 16, 32, 64] if quick else [8, 16, 32, 64, 128, 256, 512, 1024]
+    pw = [8, 16, 32, 64] if quick else [8, 16, 32, 64, 128, 256, 512, 1024]      # words inside one --exec=VALUE word
+    pl = [8, 16, 32, 64] if quick else [8, 16, 32, 64, 128]                      # words on the line
+    pb = [8, 16, 32, 64] if quick else [8, 16, 32, 64, 128, 256, 512]            # letters in a bundle
     pc = [8, 16, 32, 64, 128, 256] if quick else [8, 16, 32, 64, 128, 256, 512, 1024, 2048, 4096, 8192]
     around = lambda ps: sorted({m for q in ps for m in (q - 1, q, q + 1)} | ({126, 127} if max(ps) >= 128 else set()))
     sweep = set()
 
     def contexts(t):
-        sweep.update([(t,), (base["x"], t, base["7"])] + ([] if quick else [(t, base["x"]), (base["-ab"], t)]))
+        sweep.update([(t,), (base["x"], t, base["7"])])              # alone / in the middle
     for m in around(pw):
         words = [("'q %d'" % k if k % 5 == 4 else "w%d" % (k % 10)) for k in range(m)]
         contexts(tk("--exec=" + " ".join(words)))                                   # ArgListEq: m words inside one argv word
+    for m in around(pb):
         contexts(tk("-" + "".join("ab"[k % 2] for k in range(m))))                  # bundle of m known letters
         contexts(tk("-" + "".join("abz"[k % 3] for k in range(m))))                 # ... with unknown letters in it
-        if m > 260:
-            continue            # whole lines of more than ~256 words are not swept (state size), lists inside one word are
+    for m in (255, 256, 257) + (() if quick else (511, 512, 513)):
+        contexts(tk("-" + "z" * m))                                                 # more bad options than the 8-bit counter holds
+    for m in around(pl):
         cyc = [base["x"], base["7"], base["on"], base["-a"], base["--num"]]
         for opt in ("-e", "--exec"):                                                # ArgListRest: m words on the line
             sweep.add((base[opt],) + tuple(cyc[k % 5] for k in range(m)))
@@ -442,7 +450,7 @@ def run(ctx):
     ctx.cov["rule"] = ("every behaviour (table x settings x argument vector) TLC generates in the bounded scope is executed once on "
                        "spifopt_parse (pre-parse pass + normal pass as one script); targets, argv up to and including the NULL, bad-option "
                        "count and settings flags are compared after every pass with the values the specification computed")
-    ctx.assumptions += ["help handler returns; bad-option limit 60000 (limit handling, which exits, is out of scope)",
+    ctx.assumptions += ["help handler returns; bad-option limit 255, the largest the 8-bit field holds (limit handling, which exits, is out of scope)",
                         "integer targets are long-sized cells initialised to 5, written through int*",
                         "ASan build of the current tree (clang -O1)"]
 
